@@ -147,6 +147,18 @@ func PDFHeaderFooter() []byte {
 	return pdfw.Write(d, pdfw.Layout{}).Bytes
 }
 
+// PDFSameBaseFont: one page with three font resources that share /BaseFont /Helvetica but decode differently
+// (WinAnsi, WinAnsi + /Differences, WinAnsi + own /Widths); the codes 65/66 tell them apart.
+func PDFSameBaseFont() []byte {
+	d := pdfw.Doc{Name: "samebase", Pages: []pdfw.Page{{Lines: []pdfw.Line{
+		{Font: pdfw.Type1WinAnsi, Text: "AB plain letters", X: 72, Y: 700, Size: 12},
+		{Font: pdfw.Type1Differences, Text: "\u20ac\u2022 remapped letters", X: 72, Y: 680, Size: 12},
+		{Font: pdfw.Type1Widths, Text: "AB wide letters", X: 72, Y: 660, Size: 12},
+		{Font: pdfw.Type1WinAnsi, Text: "tail", X: 330, Y: 660, Size: 12},
+	}}}}
+	return pdfw.Write(d, pdfw.Layout{}).Bytes
+}
+
 // PDFStream: same logical document as a.pdf with xref stream, object streams and Flate.
 func PDFStream() []byte {
 	return pdfw.Write(PDFDoc(), pdfw.Layout{XRef: "stream", ObjStm: "all", Filter: "Fl"}).Bytes
@@ -227,7 +239,7 @@ func Named() []struct {
 		Name string
 		Data []byte
 	}{
-		{"a.pdf", PDF()}, {"pending.pdf", PDFPending()}, {"broken.pdf", PDFBroken()}, {"stream.pdf", PDFStream()}, {"ties.pdf", PDFTies()}, {"widths.pdf", PDFWidths()}, {"forms.pdf", PDFForms()}, {"badkid.pdf", PDFBadKid()}, {"hf.pdf", PDFHeaderFooter()},
+		{"a.pdf", PDF()}, {"pending.pdf", PDFPending()}, {"broken.pdf", PDFBroken()}, {"stream.pdf", PDFStream()}, {"ties.pdf", PDFTies()}, {"widths.pdf", PDFWidths()}, {"forms.pdf", PDFForms()}, {"badkid.pdf", PDFBadKid()}, {"hf.pdf", PDFHeaderFooter()}, {"samebase.pdf", PDFSameBaseFont()},
 		{"a.docx", DOCX()}, {"a.odt", ODT()}, {"a.xlsx", XLSX()}, {"a.pptx", PPTX()}, {"a.epub", EPUB3()}, {"b.epub", EPUB2()}, {"a.html", HTML()},
 	}
 }
